@@ -238,7 +238,7 @@ SPACE_FN = {"box": box_cases, "tri": tri_cases, "misc": misc_cases}
 
 
 def blocks(tier):
-    out = [{"sp": "longlist", "tier": tier}]
+    out = [{"sp": "longlist", "tier": tier}, {"sp": "octave", "tier": tier}]
     for sp in ("box", "tri", "misc"):
         n = SHARDS[tier][sp]
         out += [{"sp": sp, "tier": tier, "shard": i, "of": n} for i in range(n)]
@@ -631,8 +631,55 @@ def long_list_cases():
                        "o": {"values": "longhole", "fill": fill, "dtype": "float32", "contents": "g1"}}
 
 
+OCT_F = [125.0 * 2 ** k for k in range(8)]
+OCT_T = [0.0, 1.0, 2.0, 3.0, 4.0]
+
+
+def octave_cases():
+    """Boxes on a template whose frequency axis is NOT regularly spaced (octave bands): every pair of edges among the band
+    edges and their geometric middles x every pair of time edges among bin edges and middles, both dimension orders."""
+    fpos = sorted(set(OCT_F + [math.sqrt(a * b) for a, b in zip(OCT_F, OCT_F[1:])]))
+    tpos = [0.0, 0.5, 1.0, 2.5, 3.0, 4.0]
+    for order in ORDERS:
+        for a, b in itertools.combinations(tpos, 2):
+            for c, d in itertools.combinations(fpos, 2):
+                yield {"sp": "octave", "order": order, "box": [a, c, b, d]}
+
+
+def run_octave(case):
+    import bisect
+    from soundevent import data
+    out = Out(case)
+    order = case["order"]
+    a, c, b, d = case["box"]
+    dims = [FREQ, TIME] if order == "ft" else [TIME, FREQ]
+    shape = (len(OCT_F), len(OCT_T)) if order == "ft" else (len(OCT_T), len(OCT_F))
+    t = arrays.create_time_range(0.0, 5.0, step=1.0)
+    tpl = xr.DataArray(np.full(shape, 9.0), dims=dims, coords={TIME: t, FREQ: xr.Variable(FREQ, np.array(OCT_F))})
+    cls = {"fn": "rasterize", "geom": "box", "kind": "octave_axis", "order": order}
+    out.transitions = out.validated = 1
+    try:
+        r = rasterize([data.BoundingBox(coordinates=[a, c, b, d])], tpl, values=[3.0])
+    except Exception as e:  # noqa
+        out.fail("cells_equal_model", ["crash" if not is_rejection(e) else "reject", type(e).__name__], "a raster", cls)
+        return out
+    got = np.asarray(r.transpose(TIME, FREQ).values, dtype=float)
+    bt = lambda x: bisect.bisect_right(OCT_T, x) - 1  # noqa: E731
+    bf = lambda x: bisect.bisect_right(OCT_F, x) - 1  # noqa: E731
+    exp = np.zeros((len(OCT_T), len(OCT_F)))
+    exp[bt(a):bt(b), bf(c):bf(d)] = 3.0
+    out.nontrivial = bool(exp.any())
+    out.expect("cells_equal_model", got.shape == exp.shape and np.array_equal(got, exp), got.tolist(), exp.tolist(), cls)
+    out.klass = "octave:%s:%s" % (order, "some" if exp.any() else "none")
+    return out
+
+
 def run_block(block, rec):
     sp = block["sp"]
+    if sp == "octave":
+        for case in octave_cases():
+            rec.add(run_octave(case))
+        return
     if sp == "longlist":
         singles = {}
         for case in long_list_cases():
@@ -654,4 +701,6 @@ def run_block(block, rec):
 
 
 def replay_case(case):
+    if case.get("sp") == "octave":
+        return run_octave(case)
     return run_case(case)
